@@ -233,6 +233,8 @@ def run(ctx):
             appends = [s for s in steps if s["call"] == "openat" and s["obj"] == "log" and "O_APPEND" in s.get("flags", [])]
             if any(s["call"] == "write" and s["obj"] == "log" for s in steps):
                 ok = ok and len(appends) == 1 and sum(1 for s in steps if s["call"] == "write" and s["obj"] == "log") == 1
+            sh = strace.shape(ctx.model, steps)
+            ok = ok and sh["writer"] and (sh["abstract"][-1:] == ["unlock"])
             if not ok:
                 ctx.tie_broken("T3 writer program " + name, {"program": prog, "expected": "flock(LOCK_EX|LOCK_NB) … read(log) … one write / tmp+rename … flock(LOCK_UN), all writes inside"})
         ctx.tie("T3 writer programs", **progs)
